@@ -8,22 +8,23 @@ import (
 	"strings"
 )
 
-const repoPrefix = "seehuhn.de/go/postscript"
+// opaque reports whether values of type t are not looked into: types of a few
+// standard packages whose values are immutable once built or carry only
+// synchronisation state (regexp, text/template, embed, errors, time, sync, the
+// sync shim).  Their identity (nil or not) still enters the image.  Everything
+// else — including bytes.Buffer, strings.Builder, bufio and container types — is
+// walked field by field, exported or not.
+var opaquePkgs = map[string]bool{
+	"regexp": true, "regexp/syntax": true, "text/template": true, "text/template/parse": true,
+	"embed": true, "errors": true, "time": true, "sync": true, "sync/atomic": true, "reflect": true,
+	"io/fs": true, "unicode": true,
+}
 
-// opaque reports whether values of type t are not looked into: named types
-// defined outside the repository (text/template, regexp, embed, sync shim,
-// errors, time, …).  Their identity (nil or not) still enters the hash.
 func opaque(t reflect.Type) bool {
 	if t.PkgPath() == "" {
 		return false
 	}
-	if strings.HasPrefix(t.PkgPath(), repoPrefix) && !strings.HasSuffix(t.PkgPath(), "/zzverifrt") {
-		return false
-	}
-	if strings.HasPrefix(t.PkgPath(), "seehuhn.de/go/geom") {
-		return false
-	}
-	return true
+	return opaquePkgs[t.PkgPath()] || strings.HasSuffix(t.PkgPath(), "/zzverifrt")
 }
 
 // walker renders a deep, address-free image of a value and collects the
@@ -154,14 +155,27 @@ func (w *walker) walk(v reflect.Value, depth int) {
 		}
 		fallthrough
 	case reflect.Array:
+		// a slice is rendered up to its capacity: storage behind the length is
+		// where a reused scratch buffer keeps what the last user left in it
+		full := v
+		if v.Kind() == reflect.Slice && v.Cap() > v.Len() {
+			full = v.Slice(0, v.Cap())
+		}
 		if t.Elem().Kind() == reflect.Uint8 && v.Kind() == reflect.Slice {
-			fmt.Fprintf(&w.sb, "%x ", v.Bytes())
+			fmt.Fprintf(&w.sb, "%x", full.Bytes()[:v.Len()])
+			if full.Len() > v.Len() {
+				fmt.Fprintf(&w.sb, "+cap:%x", full.Bytes()[v.Len():])
+			}
+			w.sb.WriteString(" ")
 			return
 		}
 		w.sb.WriteString("[")
-		for i := 0; i < v.Len(); i++ {
+		for i := 0; i < full.Len(); i++ {
+			if i == v.Len() {
+				w.sb.WriteString("+cap: ")
+			}
 			w.path = append(w.path, fmt.Sprintf("[%d]", i))
-			w.walk(v.Index(i), depth+1)
+			w.walk(full.Index(i), depth+1)
 			w.path = w.path[:len(w.path)-1]
 		}
 		w.sb.WriteString("] ")
